@@ -49,6 +49,7 @@ type Limits struct {
 	MaxConcretize int  // values per concretisation
 	MaxDepth     int   // call depth => fatal "stack overflow"
 	QueryTimeoutMs int
+	FreshSolver  bool
 }
 
 func DefaultLimits() Limits {
